@@ -45,6 +45,8 @@ type Violation struct {
 	Choices   []int             `json:"choices,omitempty"` // non-solver decisions (select/scheduler) along the path
 	Decisions string            `json:"decisions"`
 	Kind      string            `json:"kind"` // assert | panic | hang
+	UF        bool              `json:"uf_dependent,omitempty"` // path used uninterpreted stand-ins: the model may not be realisable natively
+	ND        int               `json:"nd_choices,omitempty"`
 	Confirmed string            `json:"confirmed,omitempty"`
 	ReplayOut string            `json:"replay_out,omitempty"`
 }
@@ -744,7 +746,7 @@ func (m *Machine) recordViolation(fr *Frame, id, kind, msg string, model map[str
 		w = fr.where()
 	}
 	m.res.Violations = append(m.res.Violations, Violation{ID: id, Harness: m.harnessName, Msg: msg, Where: w, Class: m.classString(),
-		Model: model, StrModel: smodel, Choices: append([]int{}, m.choices...), Decisions: m.decisionString(), Kind: kind})
+		Model: model, StrModel: smodel, Choices: append([]int{}, m.choices...), Decisions: m.decisionString(), Kind: kind, UF: m.ufCount > 0, ND: m.ndChoices})
 }
 
 // pathModel returns a model of the current path condition.
